@@ -14,6 +14,9 @@ CLAIMED = {
  "C03": ("model-based property testing (proptest) + bounded-exhaustive enumeration: generated chunk sequences / patch chains applied by Physis to a scratch tree, compared with an in-memory file-system model of the reference ZiPatch semantics",
          "Generated-input search over chunk sequences and patch chains plus all sequences of length <= 2 (<= 3 thorough) over a concrete 12-chunk alphabet; resulting tree compared file-by-file with a reference model.",
          "Trusts the harness's ZiPatch encoder and file-system model (written from the format and XIVLauncher's semantics); directory effects asserted only as required <= actual <= allowed.", "5/C03"),
+ "C04": ("round-trip property testing (proptest): generated tree pairs (A, B) -> ZiPatch::create -> ZiPatch::apply on a copy of A -> comparison with B; read-only check on A and B",
+         "Generated-input search over pairs of directory trees with every overlap kind and block-alignment-boundary sizes; the patched copy must equal B's non-empty files exactly.",
+         "Trusts the harness's tree walker/comparator; empty B-side files may be absent or empty.", "5/C04"),
  "C05": ("round-trip property testing (proptest): own big-endian EXH/EXD/EXL encoder -> Physis read_row / sheet lookup through a generated archive -> comparison with the generated cell values",
          "Generated-input search over schemas (all 19 column types, arbitrary offsets), row sets (sub-rows, string heaps, extreme values) and archive layouts; every cell compared with the stored value.",
          "Trusts the harness's Excel encoder (written from the format description, junk-filled gaps).", "5/C05"),
@@ -23,6 +26,9 @@ CLAIMED = {
  "C12": ("property-based differential testing (proptest) against bitwise CRC and FIPS SHA-1; exhaustive by length 0..300; case-flip metamorphic relation",
          "Generated-input search over ASCII strings and files on every SHA-1 padding boundary, compared with independent implementations; lengths 0..300 enumerated exhaustively.",
          "Trusts the harness's own CRC/SHA-1 (validated against published check values at start-up).", "5/C12"),
+ "C15": ("exhaustive enumeration of the finite domains with structural oracles (tribe codes 2r-1/2r, injectivity maps, documented name patterns) and a differential check of Repository file names against the files ZiPatch::apply creates",
+         "Complete enumeration: all 256 race/tribe/gender triples, all 100 000 (id, slot), all permutations of repository sets, all 60 000 file-name combinations cross-checked against patch application.",
+         "Trusts that tribe/race enums carry game codes allocated in race order (structural oracle).", "5/C15"),
 }
 PENDING = {}
 props = [json.loads(l) for l in open(os.path.join(ROOT, "properties.jsonl"))]
